@@ -216,7 +216,7 @@ class Normaliser(ast.NodeTransformer):
                         self.path_mods.add(a.asname or "path")
                     if n.module in ("os.path", "posixpath", "ntpath"):
                         self.path_funcs[a.asname or a.name] = a.name
-                    if n.module == "operator" and a.name in ("itemgetter", "attrgetter"):
+                    if n.module == "operator" and a.name in ("itemgetter", "attrgetter", "methodcaller"):
                         self.op_funcs[a.asname or a.name] = a.name
                     if n.module == "functools" and a.name == "partial":
                         self.ft_partial.add(a.asname or a.name)
@@ -248,7 +248,8 @@ class Normaliser(ast.NodeTransformer):
     def _getter_kind(self, fn):
         if isinstance(fn, ast.Name):
             return self.op_funcs.get(fn.id)
-        if isinstance(fn, ast.Attribute) and fn.attr in ("itemgetter", "attrgetter") and isinstance(fn.value, ast.Name) and fn.value.id in self.op_mods:
+        if isinstance(fn, ast.Attribute) and fn.attr in ("itemgetter", "attrgetter", "methodcaller") and isinstance(fn.value, ast.Name) \
+                and fn.value.id in self.op_mods:
             return fn.attr
         return None
 
@@ -715,7 +716,37 @@ class Normaliser(ast.NodeTransformer):
         if isinstance(c.func, ast.Attribute) and c.func.attr == "appendleft" and len(c.args) == 1 and not c.keywords:
             return ast.copy_location(ast.Call(func=ast.Attribute(value=c.func.value, attr="insert", ctx=ast.Load()),
                                               args=[ast.Constant(value=0), c.args[0]], keywords=[]), c)
+        if isinstance(c.func, ast.Name) and c.func.id == "len" and len(c.args) == 1 and not c.keywords and isinstance(c.args[0], ast.Constant) \
+                and isinstance(c.args[0].value, str):
+            return ast.copy_location(ast.Constant(value=len(c.args[0].value)), c)
         gk = self._getter_kind(c.func)
+        if gk == "methodcaller" and c.args and isinstance(c.args[0], ast.Constant) and isinstance(c.args[0].value, str) and c.args[0].value.isidentifier() \
+                and all(_simple(a) for a in c.args[1:]) and all(k.arg and _simple(k.value) for k in c.keywords):
+            # operator.methodcaller("m", a, k=b)  ->  lambda _obj: _obj.m(a, k=b)   (arguments that are names / constants: same value at every call)
+            prm = ast.arg(arg="_obj")
+            body = ast.Call(func=ast.Attribute(value=ast.Name(id="_obj", ctx=ast.Load()), attr=c.args[0].value, ctx=ast.Load()),
+                            args=[copy.deepcopy(a) for a in c.args[1:]], keywords=[copy.deepcopy(k) for k in c.keywords])
+            lam = ast.Lambda(args=ast.arguments(posonlyargs=[], args=[prm], kwonlyargs=[], kw_defaults=[], defaults=[]), body=body)
+            return ast.copy_location(lam, c)
+        if isinstance(c.func, ast.Lambda) and not c.keywords and not any(isinstance(a, ast.Starred) for a in c.args):
+            # (lambda x: E)(a)  ->  E[x := a]   when a has no call or x is read exactly once
+            la = c.func.args
+            if not (la.posonlyargs or la.kwonlyargs or la.vararg or la.kwarg or la.defaults) and len(la.args) == len(c.args):
+                names = [a.arg for a in la.args]
+                reads = {}
+                inner_bound = set()
+                for y in ast.walk(c.func.body):
+                    if isinstance(y, ast.Name):
+                        if isinstance(y.ctx, ast.Load):
+                            reads[y.id] = reads.get(y.id, 0) + 1
+                        else:
+                            inner_bound.add(y.id)
+                    elif isinstance(y, ast.Lambda):
+                        inner_bound |= set(z.arg for z in y.args.args)
+                if not (inner_bound & set(names)) and all(reads.get(n0, 0) == 1 or _no_effect(a) for n0, a in zip(names, c.args)) \
+                        and len([a for a in c.args if not _no_effect(a)]) <= 1 \
+                        and not any(isinstance(y, ast.Name) and y.id in inner_bound for a in c.args for y in ast.walk(a)):
+                    return ast.copy_location(_SubstExpr(dict(zip(names, c.args))).visit(copy.deepcopy(c.func.body)), c)
         if gk == "itemgetter" and c.args and not c.keywords and all(isinstance(a, ast.Constant) for a in c.args):
             prm = ast.arg(arg="_seq")
             subs = [ast.Subscript(value=ast.Name(id="_seq", ctx=ast.Load()), slice=copy.deepcopy(a), ctx=ast.Load()) for a in c.args]
@@ -739,6 +770,26 @@ class Normaliser(ast.NodeTransformer):
                 and isinstance(c.args[1], ast.Constant) and isinstance(c.args[1].value, str) and c.args[1].value.isidentifier():
             return ast.copy_location(ast.Attribute(value=c.args[0], attr=c.args[1].value, ctx=ast.Load()), c)
         return c
+
+    def visit_BinOp(self, e):
+        # constant folding of what inlining leaves behind:  'a' + 'b' -> 'ab',  (x + '_') + 'get' -> x + '_get'
+        self.generic_visit(e)
+        if isinstance(e.op, ast.Add) and isinstance(e.right, ast.Constant) and isinstance(e.right.value, str):
+            if isinstance(e.left, ast.Constant) and isinstance(e.left.value, str):
+                return ast.copy_location(ast.Constant(value=e.left.value + e.right.value), e)
+            if isinstance(e.left, ast.BinOp) and isinstance(e.left.op, ast.Add) and isinstance(e.left.right, ast.Constant) \
+                    and isinstance(e.left.right.value, str):
+                return ast.copy_location(ast.BinOp(left=e.left.left, op=ast.Add(), right=ast.Constant(value=e.left.right.value + e.right.value)), e)
+        return e
+
+    def visit_IfExp(self, e):
+        # a if <test over constants> else b   (None is not None, after a default argument was put in)
+        self.generic_visit(e)
+        t = e.test
+        if isinstance(t, ast.Compare) and len(t.ops) == 1 and isinstance(t.left, ast.Constant) and isinstance(t.comparators[0], ast.Constant) \
+                and t.left.value is None and t.comparators[0].value is None and isinstance(t.ops[0], (ast.Is, ast.IsNot, ast.Eq, ast.NotEq)):
+            return e.body if isinstance(t.ops[0], (ast.Is, ast.Eq)) else e.orelse
+        return e
 
     def visit_Expr(self, st):
         self.generic_visit(st)
@@ -764,6 +815,11 @@ def _literal_like(v, depth=0):
             return True
     if isinstance(v, (ast.Tuple, ast.List)) and depth < 2:
         return all(_literal_like(e, depth + 1) or _simple(e) for e in v.elts)
+    if depth == 0 and isinstance(v, ast.Dict) and v.keys and all(isinstance(k, ast.Constant) for k in v.keys) \
+            and all(isinstance(x, ast.Constant) for x in v.values):
+        return True               # a private table of constants
+    if isinstance(v, (ast.Tuple, ast.List)) and depth == 2:
+        return all(isinstance(e, ast.Constant) for e in v.elts)        # the cells of a literal table of rows
     return False
 
 
@@ -966,6 +1022,7 @@ class _InlinePrivateGenerators(ast.NodeTransformer):
     program: the generator is a plain one (no return, try, with, yield from), BODY has no break, and a `continue` in BODY is allowed only
     when every yield is the last thing its loop iteration does."""
     def __init__(self, tree):
+        self._tree = tree
         self.mod_funcs = dict((st.name, st) for st in tree.body if isinstance(st, ast.FunctionDef))
         self.cls_funcs = {}
         for st in tree.body:
@@ -1324,6 +1381,71 @@ class _InlineTableDrivenProcedures(_InlinePrivateGenerators):
         r = self._inline0(st, call, result_to)
         return None if r is st else r
 
+    def visit_Return(self, st):
+        # `return _shared_body(x, "time", dt.time, FMT, methodcaller("strftime", FMT), lambda p: p)` - the whole body of a public function is a
+        # private helper that is handed behaviour (a lambda, an operator.* / functools.partial object, a table of functions): the call is in
+        # tail position, so it is the helper's body itself (its returns stay returns) with the arguments put in for the parameters
+        self.generic_visit(st)
+        call = st.value
+        if not isinstance(call, ast.Call) or self.fn is None or call.keywords or any(isinstance(a, ast.Starred) for a in call.args):
+            return st
+        if not hasattr(self, "_behaviour_names"):
+            self._behaviour_names = set()
+            for y in ast.walk(self._tree):
+                if isinstance(y, ast.ImportFrom) and y.module in ("operator", "functools"):
+                    self._behaviour_names |= set(a.asname or a.name for a in y.names)
+
+        def behaviour(a):
+            if isinstance(a, ast.Lambda) or _function_table(a):
+                return True
+            if isinstance(a, ast.Call):
+                fn = a.func
+                return (isinstance(fn, ast.Name) and fn.id in self._behaviour_names) or \
+                    (isinstance(fn, ast.Attribute) and isinstance(fn.value, ast.Name) and fn.value.id in ("operator", "functools"))
+            return False
+        if not any(behaviour(a) for a in call.args):
+            return st
+        got = self._callee(call)
+        if got is None:
+            return st
+        g, recv, bound = got
+        body = [b for b in g.body if not (isinstance(b, ast.Expr) and isinstance(b.value, ast.Constant))]
+        if g is self.fn or _reviewed(g.name) or any(isinstance(y, (ast.Yield, ast.YieldFrom, ast.FunctionDef, ast.ClassDef, ast.Global, ast.Nonlocal))
+                                                    for b in body for y in ast.walk(b)):
+            return st
+        if any(isinstance(y, ast.Call) and (getattr(y.func, "attr", None) == g.name or getattr(y.func, "id", None) == g.name) for b in body for y in ast.walk(b)):
+            return st
+        if len([y for b in body for y in ast.walk(b) if isinstance(y, ast.stmt)]) > 25 or not body or not isinstance(body[-1], (ast.Return, ast.Raise)):
+            return st
+        if g.args.vararg or g.args.kwarg or g.args.kwonlyargs or g.args.posonlyargs or g.args.defaults:
+            return st
+        params = [a.arg for a in g.args.args]
+        pos = params[1:] if bound else params
+        if len(call.args) != len(pos):
+            return st
+        self.counter += 1
+        tag = "_%s%d__" % (g.name.strip("_"), self.counter)
+        mapping = dict((n, tag + n) for n in _function_locals(g))
+        if bound:
+            mapping[params[0]] = recv.id
+        stored = set(y.id for b in body for y in ast.walk(b) if isinstance(y, ast.Name) and isinstance(y.ctx, (ast.Store, ast.Del)))
+        binds, subst = [], {}
+        for p0, a in zip(pos, call.args):
+            if (behaviour(a) or isinstance(a, ast.Constant) or (_simple(a) and not isinstance(a, ast.Name))) and p0 not in stored:
+                subst[mapping[p0]] = a
+            elif isinstance(a, ast.Name) and p0 not in stored and a.id not in stored and a.id in [x.arg for x in self.fn.args.args] \
+                    and not any(isinstance(y, ast.Name) and y.id == a.id and isinstance(y.ctx, ast.Store) for y in ast.walk(self.fn)):
+                subst[mapping[p0]] = a            # a parameter of the caller that nobody re-binds: the same name
+            else:
+                binds.append(ast.Assign(targets=[ast.Name(id=mapping[p0], ctx=ast.Store())], value=a, lineno=st.lineno))
+        new_body = [_SubstExpr(subst).visit(_RenameLocals(mapping).visit(copy.deepcopy(b))) for b in body]
+        res = binds + new_body
+        _INLINED.append(g)
+        for r in res:
+            ast.copy_location(r, st)
+            ast.fix_missing_locations(r)
+        return res
+
     def _inline0(self, st, call, result_to):
         # a table kept in a local that is bound once (`nested = ((k, f), ...)`) is that table
         def table_of(a):
@@ -1336,7 +1458,8 @@ class _InlineTableDrivenProcedures(_InlinePrivateGenerators):
             return a
         if any(isinstance(a, ast.Name) for a in call.args):
             call = ast.copy_location(ast.Call(func=call.func, args=[table_of(a) for a in call.args], keywords=call.keywords), call)
-        if not any(_function_table(a) for a in call.args):
+        has_table = any(_function_table(a) for a in call.args)
+        if not has_table and not any(isinstance(a, ast.Constant) and isinstance(a.value, str) for a in call.args):
             return st
         if any(isinstance(a, ast.Starred) for a in call.args) or call.keywords:
             return st
@@ -1353,6 +1476,15 @@ class _InlineTableDrivenProcedures(_InlinePrivateGenerators):
         if got is None:
             return st
         g, recv, bound = got
+        if not has_table and _reviewed(g.name):
+            return st
+        if not has_table:
+            # `self._store_optional("_unit", v)`: a string argument that the helper uses as the name of an attribute (getattr / setattr / hasattr)
+            ps = [a.arg for a in g.args.args][1 if bound else 0:]
+            named = set(y.args[1].id for y in ast.walk(g) if isinstance(y, ast.Call) and isinstance(y.func, ast.Name)
+                        and y.func.id in ("getattr", "setattr", "hasattr", "delattr") and len(y.args) >= 2 and isinstance(y.args[1], ast.Name))
+            if len(call.args) != len(ps) or not any(isinstance(a, ast.Constant) and isinstance(a.value, str) and p0 in named for p0, a in zip(ps, call.args)):
+                return st
         gbody = list(g.body)
         ret_name = None
         if result_to is not None:
@@ -1383,7 +1515,7 @@ class _InlineTableDrivenProcedures(_InlinePrivateGenerators):
         stored = set(y.id for b in body for y in ast.walk(b) if isinstance(y, ast.Name) and isinstance(y.ctx, (ast.Store, ast.Del)))
         binds, subst = [], {}
         for p0, a in zip(pos, call.args):
-            if _function_table(a) and p0 not in stored:
+            if (_function_table(a) or (isinstance(a, ast.Constant) and isinstance(a.value, str))) and p0 not in stored:
                 subst[mapping[p0]] = a
             else:
                 binds.append(ast.copy_location(ast.Assign(targets=[ast.Name(id=mapping[p0], ctx=ast.Store())], value=a, lineno=st.lineno), st))
@@ -1398,13 +1530,482 @@ class _InlineTableDrivenProcedures(_InlinePrivateGenerators):
         return res
 
 
+def _helper_expression(g):
+    """the result expression of a helper whose body is `return E` or a chain `if t: return a` ... `return b` (as a conditional expression)"""
+    body = [b for b in g.body if not (isinstance(b, ast.Expr) and isinstance(b.value, ast.Constant))]
+    if not body or not isinstance(body[-1], ast.Return) or body[-1].value is None:
+        return None
+    e = body[-1].value
+    if len(body) > 1 and any(isinstance(y, ast.Attribute) and isinstance(y.value, ast.Name) and g.args.args and y.value.id == g.args.args[0].arg
+                             for b in body for r in ast.walk(b) if isinstance(r, ast.Return) and r.value is not None for y in [r.value]):
+        return None        # a chain that selects one of the receiver's own locations (`return self._sections` ...): read by the rules as a helper with cases
+    for b in reversed(body[:-1]):
+        if not (isinstance(b, ast.If) and not b.orelse and len(b.body) == 1 and isinstance(b.body[0], ast.Return) and b.body[0].value is not None):
+            return None
+        e = ast.IfExp(test=b.test, body=b.body[0].value, orelse=e)
+    if any(isinstance(y, (ast.Yield, ast.YieldFrom, ast.Await, ast.Lambda, ast.NamedExpr)) for y in ast.walk(e)):
+        return None
+    return e
+
+
+def _no_effect(e):
+    return not any(isinstance(y, (ast.Call, ast.Yield, ast.YieldFrom, ast.Await, ast.NamedExpr)) for y in ast.walk(e))
+
+
+class _InlineExpressionHelpers(_InlinePrivateGenerators):
+    """`self._typed(v)` / `_blank_to_none(x)` / `cls._make_id(oid)` - a call of a private helper of the same module / class whose body is one
+    result expression (`return E`, or `if t: return a` ... `return b`) - is that expression with the arguments put in for the parameters.
+    Done only where it is the same program: no starred arguments, the helper is not recursive and not decorated (staticmethod aside), a
+    parameter that the expression reads more than once - or not at all - gets an argument without calls, and no name of the expression is
+    a local of the calling function (or is bound by a comprehension of the expression and read by an argument)."""
+    def visit_For(self, st):
+        return ast.NodeTransformer.generic_visit(self, st)
+
+    def visit_FunctionDef(self, fn):
+        saved, saved_locals = self.fn, getattr(self, "fn_locals", None)
+        self.fn = fn
+        self.fn_locals = set(_function_locals(fn))
+        self.generic_visit(fn)
+        self.fn, self.fn_locals = saved, saved_locals
+        return fn
+
+    def visit_Call(self, call):
+        self.generic_visit(call)
+        if self.depth > 3 or any(isinstance(a, ast.Starred) for a in call.args) or any(k.arg is None for k in call.keywords):
+            return call
+        got = None
+        f = call.func
+        if isinstance(f, ast.Name) and f.id.startswith("_") and not f.id.startswith("__") and f.id in self.mod_funcs \
+                and not self.mod_funcs[f.id].decorator_list:
+            got = (self.mod_funcs[f.id], None, False)
+        elif self.fn is not None:
+            got = self._callee(call)
+            if got is None and isinstance(f, ast.Attribute) and isinstance(f.value, ast.Name) and self.cls and f.attr.startswith("_") \
+                    and not f.attr.startswith("__"):
+                g0 = self.cls_funcs.get(self.cls, {}).get(f.attr)
+                first = self.fn.args.args[0].arg if self.fn.args.args else None
+                if g0 is not None and len(g0.decorator_list) == 1 and isinstance(g0.decorator_list[0], ast.Name) \
+                        and g0.decorator_list[0].id == "classmethod" and f.value.id in (self.cls, first):
+                    got = (g0, f.value, True)
+        if got is None:
+            return call
+        g, recv, bound = got
+        if g is self.fn or g.args.vararg or g.args.kwarg or g.args.kwonlyargs or g.args.posonlyargs or _reviewed(g.name):
+            return call
+        e = _helper_expression(g)
+        if e is None:
+            return call
+        if any(isinstance(y, ast.Call) and (getattr(y.func, "attr", None) == g.name or getattr(y.func, "id", None) == g.name) for y in ast.walk(e)):
+            return call
+        params = [a.arg for a in g.args.args]
+        pos = params[1:] if bound else params
+        defaults = dict(zip(params[len(params) - len(g.args.defaults):], g.args.defaults))
+        kw = dict((k.arg, k.value) for k in call.keywords)
+        if len(call.args) > len(pos) or any(k not in pos for k in kw):
+            return call
+        subst = {}
+        for i, p0 in enumerate(pos):
+            if i < len(call.args):
+                if p0 in kw:
+                    return call
+                subst[p0] = call.args[i]
+            elif p0 in kw:
+                subst[p0] = kw[p0]
+            elif p0 in defaults:
+                subst[p0] = defaults[p0]
+            else:
+                return call
+        if bound:
+            subst[params[0]] = recv
+        reads = {}
+        bound_inside = set()
+        for y in ast.walk(e):
+            if isinstance(y, ast.Name):
+                if isinstance(y.ctx, ast.Load):
+                    reads[y.id] = reads.get(y.id, 0) + 1
+                else:
+                    bound_inside.add(y.id)
+        if bound_inside & set(params):
+            return call
+        for p0, a in subst.items():
+            if reads.get(p0, 0) != 1 and not _no_effect(a):
+                return call
+            if any(isinstance(y, ast.Name) and y.id in bound_inside for y in ast.walk(a)):
+                return call
+        # evaluation order: with more than one effectful argument keep the call unless they are read in parameter order exactly once
+        if len([a for a in subst.values() if not _no_effect(a)]) > 1:
+            return call
+        free = set(reads) - set(params) - bound_inside
+        if self.fn is not None and free & (getattr(self, "fn_locals", None) or set()):
+            return call
+        new = _SubstExpr(subst).visit(copy.deepcopy(e))
+        _INLINED.append(g)
+        self.depth += 1
+        try:
+            new = self.visit(new)
+        finally:
+            self.depth -= 1
+        return ast.copy_location(new, call)
+
+
+class _InlineContextManagers(_InlinePrivateGenerators):
+    """`with self._restoring(x) as v: BODY` over a private @contextmanager generator of the same class / module with exactly one `yield` is the
+    generator's body with the yield statement replaced by `v = <yielded>; BODY` (parameters bound first, locals renamed): the exception
+    edges of BODY then run through the generator's own try / except / finally, as they do at run time.  Only where that is the same
+    program: one with-item, the yield is a statement at the top level of the body or directly inside one try statement, BODY has no
+    return / break / continue / yield, and no handler of that try swallows the exception (each ends in a bare `raise`), or there is none."""
+    def visit_For(self, st):
+        return ast.NodeTransformer.generic_visit(self, st)
+
+    def _cm(self, call):
+        f = call.func
+        g = None
+        recv, bound = None, False
+        if isinstance(f, ast.Name) and f.id in self.mod_funcs:
+            g = self.mod_funcs[f.id]
+        elif isinstance(f, ast.Attribute) and isinstance(f.value, ast.Name) and self.cls and self.fn is not None and self.fn.args.args \
+                and f.value.id == self.fn.args.args[0].arg:
+            g = self.cls_funcs.get(self.cls, {}).get(f.attr)
+            recv, bound = f.value, True
+        if g is None or not g.name.startswith("_"):
+            return None
+        decs = [ast.unparse(d) for d in g.decorator_list]
+        if decs not in (["contextmanager"], ["contextlib.contextmanager"]):
+            return None
+        return g, recv, bound
+
+    def visit_With(self, st):
+        self.generic_visit(st)
+        if len(st.items) != 1 or not isinstance(st.items[0].context_expr, ast.Call) or self.fn is None:
+            return st
+        call = st.items[0].context_expr
+        tgt = st.items[0].optional_vars
+        if tgt is not None and not isinstance(tgt, ast.Name):
+            return st
+        if call.keywords or any(isinstance(a, ast.Starred) for a in call.args):
+            return st
+        got = self._cm(call)
+        if got is None:
+            return st
+        g, recv, bound = got
+        if g.args.vararg or g.args.kwarg or g.args.kwonlyargs or g.args.posonlyargs or g.args.defaults or _reviewed(g.name):
+            return st
+        if any(isinstance(y, (ast.Return, ast.Break, ast.Continue, ast.Yield, ast.YieldFrom)) for b in st.body for y in ast.walk(b)):
+            return st
+        body = [b for b in g.body if not (isinstance(b, ast.Expr) and isinstance(b.value, ast.Constant))]
+        yields = [y for b in body for y in ast.walk(b) if isinstance(y, (ast.Yield, ast.YieldFrom))]
+        if len(yields) != 1 or not isinstance(yields[0], ast.Yield) or any(isinstance(y, (ast.Return, ast.FunctionDef, ast.Lambda)) for b in body for y in ast.walk(b)):
+            return st
+
+        def is_yield(b):
+            return isinstance(b, ast.Expr) and b.value is yields[0]
+        where = None
+        for b in body:
+            if is_yield(b):
+                where = ("top", None)
+            elif isinstance(b, ast.Try) and any(is_yield(x) for x in b.body):
+                if not all(h.body and isinstance(h.body[-1], ast.Raise) and h.body[-1].exc is None for h in b.handlers):
+                    return st
+                where = ("try", b)
+        if where is None:
+            return st
+        params = [a.arg for a in g.args.args]
+        pos = params[1:] if bound else params
+        if len(call.args) != len(pos):
+            return st
+        self.counter += 1
+        tag = "_%s%d__" % (g.name.strip("_"), self.counter)
+        mapping = dict((n, tag + n) for n in _function_locals(g))
+        if bound:
+            mapping[params[0]] = recv.id
+        binds = [ast.Assign(targets=[ast.Name(id=mapping[p0], ctx=ast.Store())], value=a, lineno=st.lineno) for p0, a in zip(pos, call.args)]
+
+        def build(stmts):
+            out = []
+            for b in stmts:
+                if is_yield(b):
+                    if tgt is not None:
+                        val = _RenameLocals(mapping).visit(copy.deepcopy(b.value.value)) if b.value.value is not None else ast.Constant(value=None)
+                        out.append(ast.Assign(targets=[ast.Name(id=tgt.id, ctx=ast.Store())], value=val, lineno=st.lineno))
+                    out.extend(st.body)
+                elif isinstance(b, ast.Try) and where[1] is b:
+                    nb = copy.copy(b)
+                    nb.body = build(b.body)
+                    nb.handlers = [_RenameLocals(mapping).visit(copy.deepcopy(h)) for h in b.handlers]
+                    nb.orelse = [_RenameLocals(mapping).visit(copy.deepcopy(x)) for x in b.orelse]
+                    nb.finalbody = [_RenameLocals(mapping).visit(copy.deepcopy(x)) for x in b.finalbody]
+                    out.append(nb)
+                else:
+                    out.append(_RenameLocals(mapping).visit(copy.deepcopy(b)))
+            return out
+        res = binds + build(body)
+        _INLINED.append(g)
+        for r in res:
+            ast.copy_location(r, st)
+            ast.fix_missing_locations(r)
+        return res
+
+
+
+def _strip_doc(body):
+    return [b for b in body if not (isinstance(b, ast.Expr) and isinstance(b.value, ast.Constant))]
+
+
+class _ExpandPrivateDecorators(object):
+    """A private decorator defined in the same module is applied at definition time:
+      * a *registering* decorator - `def D(f): <statements>; return f`, or the factory form `def D(*a): def inner(f): ...; return f; return inner` -
+        is the plain definition followed by those statements (f := the function, parameters := the arguments);
+      * a *wrapping* decorator - `def D(f): [@functools.wraps(f)] def W(params): BODY; return W` (or its factory form) - is the definition of
+        the wrapped function under the private name _<name>__wrapped followed by `def <name>(params): BODY` with f := that function; a BODY
+        that is `return f(args)` is the wrapped body itself with the arguments bound.
+    Decorators are expanded from the innermost outwards and only while they are of these two kinds; a registering decorator is expanded
+    only when no other decorator stays above it (the registered object would differ)."""
+    def __init__(self, tree):
+        self.mod_funcs = dict((st.name, st) for st in tree.body if isinstance(st, ast.FunctionDef))
+        self.counter = 0
+        self.changed = False
+
+    def run(self, tree):
+        tree.body = self._block(tree.body, None)
+        # a private decorator that was expanded at every use and is mentioned nowhere else is no longer part of the program
+        for name in sorted(getattr(self, "expanded", ())):
+            d = self.mod_funcs.get(name)
+            if d is None or d not in tree.body:
+                continue
+            inside = set(id(y) for y in ast.walk(d))
+            if not any(((isinstance(y, ast.Name) and y.id == name) or (isinstance(y, ast.Attribute) and y.attr == name) or
+                        (isinstance(y, ast.Constant) and y.value == name)) for y in ast.walk(tree) if id(y) not in inside):
+                tree.body.remove(d)
+        return tree
+
+    def _block(self, body, cls):
+        out = []
+        for st in body:
+            if isinstance(st, ast.ClassDef):
+                st.body = self._block(st.body, st)
+                out.append(st)
+            elif isinstance(st, ast.FunctionDef) and st.decorator_list:
+                out.extend(self._expand(st, cls))
+            else:
+                out.append(st)
+        return out
+
+    def _shape(self, dec):
+        """(kind, decorator def, inner def or None, {factory parameter: argument}) for a decorator expression, or None"""
+        if isinstance(dec, ast.Name):
+            name, call = dec.id, None
+        elif isinstance(dec, ast.Call) and isinstance(dec.func, ast.Name):
+            name, call = dec.func.id, dec
+        else:
+            return None
+        d = self.mod_funcs.get(name)
+        if d is None or not name.startswith("_") or name.startswith("__") or d.decorator_list or _reviewed(name):
+            return None
+        body = _strip_doc(d.body)
+        binds = {}
+        target = d
+        if call is not None:
+            # factory: def D(params): def inner(f): ...; return inner
+            if len(body) != 2 or not isinstance(body[0], ast.FunctionDef) or not isinstance(body[1], ast.Return) \
+                    or not isinstance(body[1].value, ast.Name) or body[1].value.id != body[0].name or body[0].decorator_list:
+                return None
+            a = d.args
+            if a.kwonlyargs or a.posonlyargs or a.kwarg or a.defaults or call.keywords or any(isinstance(x, ast.Starred) for x in call.args):
+                return None
+            ps = [x.arg for x in a.args]
+            if len(call.args) < len(ps) or (len(call.args) > len(ps) and not a.vararg):
+                return None
+            if not all(_simple(x) for x in call.args):
+                return None
+            for p0, x in zip(ps, call.args):
+                binds[p0] = x
+            if a.vararg:
+                binds[a.vararg.arg] = ast.Tuple(elts=list(call.args[len(ps):]), ctx=ast.Load())
+            target = body[0]
+            body = _strip_doc(target.body)
+        a = target.args
+        if len(a.args) != 1 or a.vararg or a.kwarg or a.kwonlyargs or a.posonlyargs or a.defaults:
+            return None
+        f = a.args[0].arg
+        if not body or not isinstance(body[-1], ast.Return) or not isinstance(body[-1].value, ast.Name):
+            return None
+        stored = set(y.id for b in body for y in ast.walk(b) if isinstance(y, ast.Name) and isinstance(y.ctx, (ast.Store, ast.Del)))
+        if f in stored or set(binds) & stored:
+            return None
+        if body[-1].value.id == f:
+            if any(isinstance(y, (ast.FunctionDef, ast.Lambda, ast.Return, ast.Yield, ast.YieldFrom, ast.Global, ast.Nonlocal)) for b in body[:-1] for y in ast.walk(b)):
+                return None
+            return ("register", f, body[:-1], binds)
+        if len(body) == 2 and isinstance(body[0], ast.FunctionDef) and body[1].value.id == body[0].name:
+            w = body[0]
+            for wd in w.decorator_list:
+                if not (isinstance(wd, ast.Call) and ast.unparse(wd.func) in ("functools.wraps", "wraps") and len(wd.args) == 1
+                        and isinstance(wd.args[0], ast.Name) and wd.args[0].id == f):
+                    return None
+            if w.args.vararg or w.args.kwarg or w.args.kwonlyargs or w.args.posonlyargs:
+                return None
+            # the wrapped function is only called inside the wrapper
+            uses = [y for y in ast.walk(w) if isinstance(y, ast.Name) and y.id == f]
+            calls = [y for y in ast.walk(w) if isinstance(y, ast.Call) and isinstance(y.func, ast.Name) and y.func.id == f]
+            if len(uses) != len(calls) + len(w.decorator_list) or not calls:
+                return None
+            return ("wrap", f, w, binds)
+        return None
+
+    def _expand(self, fn, cls):
+        decs = list(fn.decorator_list)
+        post = []
+        pre = []
+        cur = fn
+        while decs:
+            sh = self._shape(decs[-1])
+            if sh is None:
+                break
+            kind, f, what, binds = sh
+            if kind == "register":
+                if cls is not None or len(decs) > 1 and any(self._shape(d0) is None or self._shape(d0)[0] != "register" for d0 in decs[:-1]):
+                    break
+                self.counter += 1
+                tag = "_reg%d_" % self.counter
+                locs = set(y.id for b in what for y in ast.walk(b) if isinstance(y, ast.Name) and isinstance(y.ctx, (ast.Store, ast.Del)))
+                mapping = dict((n, tag + n) for n in locs)
+                sub = dict(binds)
+                sub[f] = ast.Name(id=fn.name, ctx=ast.Load())
+                for b in what:
+                    nb = _SubstExpr(sub).visit(_RenameLocals(mapping).visit(copy.deepcopy(b)))
+                    ast.copy_location(nb, fn)
+                    if isinstance(nb, ast.For) and isinstance(nb.iter, (ast.Tuple, ast.List)) and all(isinstance(x, ast.Constant) for x in nb.iter.elts) \
+                            and isinstance(nb.target, ast.Name) and not nb.orelse \
+                            and not any(isinstance(y, (ast.Break, ast.Continue)) for x in nb.body for y in ast.walk(x)) \
+                            and not any(isinstance(y, ast.Name) and y.id == nb.target.id and isinstance(y.ctx, ast.Store) for x in nb.body for y in ast.walk(x)):
+                        # a loop over the literal arguments of the decorator: once per argument
+                        for x in nb.iter.elts:
+                            for bb in nb.body:
+                                post.append(_SubstExpr({nb.target.id: x}).visit(copy.deepcopy(bb)))
+                    else:
+                        post.append(nb)
+                decs.pop()
+                continue
+            # wrap
+            w = what
+            self.counter += 1
+            impl_name = "_%s__wrapped%d" % (fn.name.strip("_"), self.counter)
+            impl = copy.deepcopy(cur)
+            impl.name = impl_name
+            impl.decorator_list = []
+            first = w.args.args[0].arg if w.args.args else None
+            new = copy.deepcopy(w)
+            new.name = fn.name
+            new.decorator_list = []
+            ok = [True]
+
+            class _Calls(ast.NodeTransformer):
+                def visit_Call(self2, c):
+                    self2.generic_visit(c)
+                    if isinstance(c.func, ast.Name) and c.func.id == f:
+                        if cls is None:
+                            c.func = ast.Name(id=impl_name, ctx=ast.Load())
+                        elif c.args and isinstance(c.args[0], ast.Name) and c.args[0].id == first and not c.keywords:
+                            c.func = ast.Attribute(value=c.args[0], attr=impl_name, ctx=ast.Load())
+                            c.args = c.args[1:]
+                        else:
+                            ok[0] = False
+                    return c
+            new = _Calls().visit(new)
+            if not ok[0]:
+                break
+            new.body = [_SubstExpr(binds).visit(b) for b in new.body] if binds else new.body
+            # a wrapper that ends in `return <wrapped>(args)`: the wrapped body with the arguments bound
+            nb = _strip_doc(new.body)
+            if len(nb) == 1 and isinstance(nb[0], ast.Return) and isinstance(nb[0].value, ast.Call) and not nb[0].value.keywords \
+                    and ((cls is None and isinstance(nb[0].value.func, ast.Name) and nb[0].value.func.id == impl_name) or
+                         (cls is not None and isinstance(nb[0].value.func, ast.Attribute) and nb[0].value.func.attr == impl_name)) \
+                    and not any(isinstance(y, (ast.Yield, ast.YieldFrom)) for y in ast.walk(impl)) \
+                    and not (impl.args.vararg or impl.args.kwarg or impl.args.kwonlyargs or impl.args.posonlyargs or impl.args.defaults):
+                call = nb[0].value
+                iparams = [x.arg for x in impl.args.args]
+                cargs = ([call.func.value] if cls is not None else []) + list(call.args)
+                wparams = [x.arg for x in new.args.args]
+                if len(cargs) == len(iparams) and iparams == wparams:
+                    binds2 = []
+                    for p0, a0 in zip(iparams, cargs):
+                        if not (isinstance(a0, ast.Name) and a0.id == p0):
+                            binds2.append((p0, a0))
+                    # every rebinding reads only its own parameter (or nothing of the parameters): order does not matter
+                    if all(set(y.id for y in ast.walk(a0) if isinstance(y, ast.Name)) & set(iparams) <= set([p0]) for p0, a0 in binds2):
+                        body2 = [ast.Assign(targets=[ast.Name(id=p0, ctx=ast.Store())], value=a0, lineno=fn.lineno) for p0, a0 in binds2]
+                        new.body = body2 + copy.deepcopy(_strip_doc(impl.body))
+                        impl = None
+            if impl is not None:
+                pre.append(impl)
+            cur = new
+            decs.pop()
+        if cur is fn and not post:
+            return [fn]
+        self.changed = True
+        self.expanded = getattr(self, "expanded", set()) | set(
+            (d0.func.id if isinstance(d0, ast.Call) else d0.id) for d0 in fn.decorator_list[len(decs):] if isinstance(d0, (ast.Call, ast.Name))
+            and isinstance(getattr(d0, "func", d0), ast.Name))
+        cur.decorator_list = decs
+        res = pre + [cur] + post
+        for r in res:
+            ast.copy_location(r, fn)
+            ast.fix_missing_locations(r)
+        return res
+
+
+_INLINED = []
+_REVIEWED = []
+
+
+def _reviewed(name):
+    """private helpers of the pinned tree that the rules refer to by name (tables/private_roles.json): they stay functions"""
+    if not _REVIEWED:
+        import json
+        import os
+        path = os.path.join(os.path.dirname(os.path.abspath(__file__)), "tables", "private_roles.json")
+        names = set()
+        try:
+            for owners in json.load(open(path)).values():
+                for d in owners.values():
+                    if isinstance(d, dict):
+                        names |= set(d)
+        except (OSError, ValueError):
+            pass
+        _REVIEWED.append(names)
+    return name in _REVIEWED[0]
+
+
+def _drop_dead_private_methods(tree, inlined):
+    """a private method that was put in at its call sites and is mentioned nowhere else in the module is no longer part of the program the
+    rules read (its stores would otherwise be judged as if somebody could still call it out of context)"""
+    for c in [n for n in ast.walk(tree) if isinstance(n, ast.ClassDef)]:
+        for g in list(c.body):
+            if not isinstance(g, ast.FunctionDef) or not any(g is x for x in inlined) or not g.name.startswith("_") or g.name.startswith("__"):
+                continue
+            inside = set(id(y) for y in ast.walk(g))
+            used = any((isinstance(y, ast.Attribute) and y.attr == g.name) or (isinstance(y, ast.Name) and y.id == g.name) or
+                       (isinstance(y, ast.Constant) and y.value == g.name)
+                       for y in ast.walk(tree) if id(y) not in inside)
+            if not used:
+                c.body.remove(g)
+                if not c.body:
+                    c.body.append(ast.Pass())
+    return tree
+
+
 def normalise(tree):
+    del _INLINED[:]
     tree = _lift_closed_local_functions(tree)
     inl = _InlinePrivateConstants(tree)
     if inl.consts:
         tree = inl.visit(tree)
+    tree = _ExpandPrivateDecorators(tree).run(tree)
+    tree = _InlineExpressionHelpers(tree).visit(tree)
+    tree = _InlineContextManagers(tree).visit(tree)
     tree = _InlinePrivateGenerators(tree).visit(tree)
     tree = _InlineTableDrivenProcedures(tree).visit(tree)
+    tree = _drop_dead_private_methods(tree, list(_INLINED))
     tree = _SpecialiseSelectors().visit(tree)
     ast.fix_missing_locations(tree)
     tree = Normaliser(tree).visit(tree)
